@@ -106,6 +106,14 @@ def value_guard_ok(v):
     return True
 
 
+def has_marker_key(v):
+    if v[0] == "m":
+        return any(k == MARKER or has_marker_key(x) for k, x in v[1].items())
+    if v[0] == "a":
+        return any(has_marker_key(x) for x in v[1])
+    return False
+
+
 def parse_checker(s):
     k = s.next()
     if k == "*":
@@ -288,22 +296,18 @@ def scenario_oracle(case, impl_line):
             want_tok = ":".join([str(len(want))] + [(x.hex() or "-") for x in want])
             if f["sl"] != want_tok:
                 bad.append(("roundtrip-strlist", "string list of %d reads back as %s" % (len(val[1]), f["sl"][:120])))
-        elif val[0] == "m":
-            if value_guard_ok(val):
-                try:
-                    got = parse_value(Toks(o["M"]), observed=True)
-                except Exception:  # noqa
-                    got = None
-                if got != val:
-                    bad.append(("roundtrip-map", "map written to %r reads back different" % name))
-        elif val[0] == "a":
-            if value_guard_ok(val):
-                try:
-                    got = parse_value(Toks(o["L"]), observed=True) if o["L"] not in (["n"], ["p"]) else None
-                except Exception:  # noqa
-                    got = None
-                if got != val:
-                    bad.append(("roundtrip-list", "list written to %r reads back different" % name))
+        elif val[0] in ("m", "a"):
+            # no guard: whatever the store accepted must come back equal (container_read_back)
+            sec = o["M"] if val[0] == "m" else o["L"]
+            try:
+                got = parse_value(Toks(sec), observed=True) if sec not in (["n"], ["p"], ["x"]) else None
+            except Exception:  # noqa
+                got = None
+            if got != val:
+                if has_marker_key(val):
+                    bad.append(("reserved-key-map", "a map with the reserved list-size key written to %r is accepted but reads back different (as a list)" % name))
+                else:
+                    bad.append(("roundtrip-map" if val[0] == "m" else "roundtrip-list", "%s written to %r reads back different" % ("map" if val[0] == "m" else "list", name)))
     return bad
 
 
@@ -336,8 +340,9 @@ def main(argv):
     ]
     c.assumptions = [
         "a Go map is modelled by its key-sorted association list (keys are unique); the iteration order of range over the map is irrelevant (theorem put_map_order_irrelevant)",
-        "guards of container_roundtrip: supported dynamic types only; map keys non-empty, <= 32768 bytes (bbolt MaxKeySize) and different from the reserved list-size marker key; "
-        "values < 2^31-2 bytes; lists shorter than 2^31",
+        "container_read_back has no guard on keys (whatever the store accepts reads back equal); the write is accepted (container_roundtrip) for supported dynamic types, "
+        "map keys non-empty, <= 32768 bytes (bbolt MaxKeySize) and different from the reserved list-size marker key (refused since fix C13-reserved-map-key), "
+        "values < 2^31-2 bytes, lists shorter than 2^31",
         "compound keys: components of at most 4096 bytes (MaxLinkedSetKeySize) - longer ones are rejected by the encoder",
         "float32 values are compared through their float64 widening (no NaN payloads); float formatting and int->float coercion (GetFloat64 on an int field, GetString on a float/time field) are not modelled and not compared",
         "reads of crafted buckets that no setter produces (short payloads, negative list size, GetList on an absent field) may panic in the code; the property is silent there and the comparison accepts any behaviour",
